@@ -13,9 +13,14 @@ C08 driver.  Case lines (see `harness/c08.go`):
       qnames   `,`-separated names queried with ByName after every step
       lower    strings.ToLower answers: `;`-separated <hex>/<hex> for every name of the script and of qnames
   std.scanlines <stream>        the tokens of bufio.Scanner/ScanLines
+  C08.std.scan <stream> <script> <bufcap>
+      the model of bufio.Scanner (Go/Scanner.lean) over a scripted reader; script = `,`-separated
+      read results `<n>` = (n, nil), `<n>/e` = (n, io.EOF), `<n>/<id>` = (n, error id), each optionally
+      followed by `*<count>`; `_` = empty script; the buffer is `make([]byte, 0, bufcap)` with
+      `bufio.MaxScanTokenSize` as in Parse
 -/
 import GolibsVerif.Driver.C07
-import GolibsVerif.Model.C08
+import GolibsVerif.Model.C08Scan
 
 namespace GolibsVerif.Driver.C08
 open GolibsVerif GolibsVerif.Netip GolibsVerif.C07 GolibsVerif.C08 GolibsVerif.Driver
@@ -102,9 +107,54 @@ def runScript (lower : Bytes → Bytes) (qa : List Addr) (qn : List Bytes) :
       runScript lower qa qn rest s0 s1
         (s!"S0{observe lower qa qn s0} S1{observe lower qa qn s1} eq={eq}" :: out)
 
+/-! #### scanner scripts -/
+
+def parseReadResult (s : String) : Option (Nat × Option Bufio.Err) :=
+  match s.splitOn "/" with
+  | [n] => n.toNat?.map fun n => (n, none)
+  | [n, e] => do
+    let n ← n.toNat?
+    if e = "e" then pure (n, some .eof) else
+    let id ← e.toNat?
+    pure (n, some (.reader id))
+  | _ => none
+
+def parseScriptEntry (s : String) : Option Bufio.Script :=
+  match s.splitOn "*" with
+  | [e] => (parseReadResult e).map fun r => [r]
+  | [e, c] => do
+    let r ← parseReadResult e
+    let c ← c.toNat?
+    pure (List.replicate c r)
+  | _ => none
+
+def parseScript (s : String) : Option Bufio.Script :=
+  if s = "_" then some [] else (allSome ((s.splitOn ",").map parseScriptEntry)).map List.flatten
+
+def showScanErr : Option Bufio.Err → String
+  | none => "nil"
+  | some .eof => "eof"
+  | some (.reader id) => s!"reader{id}"
+  | some .tooLong => "toolong"
+  | some .noProgress => "noprogress"
+  | some .badReadCount => "badreadcount"
+  | some _ => "other"
+
+def showScan : GoM (List Bytes × Option Bufio.Err) → String
+  | .error p => showPanic p
+  | .ok (toks, e) => s!"toks={C07.showNames toks};err={showScanErr e}"
+
 def handle (op : String) (args : List String) : Option String :=
   match op with
   | "std.scanlines" => some (C02.bytesOp args fun s => C07.showNames (scanLines s))
+  | "C08.std.scan" =>
+    match args with
+    | [stream, script, bufCap] =>
+      match hexDecode stream, parseScript script, bufCap.toNat? with
+      | some stream, some script, some bufCap =>
+        some (showScan (Bufio.scanStream bufCap Bufio.maxScanTokenSize stream script))
+      | _, _, _ => some "bad-op"
+    | _ => some "bad-op"
   | "C08.parse" =>
     match args with
     | [hs, src, re, stream, tbl] =>
